@@ -208,6 +208,27 @@ func c18Airgapped(r *kit.Run, rec *world.Recording, tier string, classes map[str
 						r.Violation("C18/rejected-but-changed/airgapped/"+why, fmt.Sprintf("the refused operation (%s, %s: %v) changed the machine's database keys %v", jb.opT, label, rerr, diff), trace)
 					}
 				}
+				// the ceremony goes on: whatever the mutated operation left behind, the genuine
+				// operations that follow must not crash the machine either
+				if perr == nil {
+					for j := jb.k; j < len(opsOf[jb.i]); j++ {
+						var p2 interface{}
+						site2 := ""
+						func() {
+							defer func() {
+								if p2 = recover(); p2 != nil {
+									site2 = PanicSite(debug.Stack())
+								}
+							}()
+							_, _ = a.M.ProcessOperation(opsOf[jb.i][j], true)
+						}()
+						if p2 != nil {
+							tr := map[string]interface{}{"entry": "Machine.ProcessOperation", "machine": jb.i, "first": fmt.Sprintf("operation %d (%s) with %s", jb.k, jb.opT, label), "then": fmt.Sprintf("genuine operation %d (%s)", j, opsOf[jb.i][j].Type)}
+							r.Violation("C18/panic/airgapped-followup/"+site2, fmt.Sprintf("after a %s operation with %s was answered, the genuine operation %d (%s) panicked the machine (in %s): %v", jb.opT, label, j, opsOf[jb.i][j].Type, site2, p2), tr)
+							break
+						}
+					}
+				}
 				a.Close()
 				os.RemoveAll(a.Dir)
 			}
